@@ -84,13 +84,39 @@ def uniform_cubic_integrals(chk):
     tp = [n for st in cu for n in ast.walk(st) if isinstance(n, ast.Assign) and src(n.targets[0]) == "test_pt"]
     ok = None
     why = "auxiliary knot vector / test point not found"
-    if kn and tp and isinstance(kn[0].value, ast.Call) and src(kn[0].value.func) == "np.linspace" and len(kn[0].value.args) == 3:
+    def affine_knots(v, n_):
+        """(first knot, spacing) of a uniform knot vector expression, or None"""
+        if isinstance(v, ast.Call) and src(v.func) == "np.linspace" and len(v.args) == 3:
+            a, b, cnt = n_.ev(v.args[0]), n_.ev(v.args[1]), n_.ev(v.args[2])
+            return a, (b - a) / (cnt - 1)
+        if isinstance(v, ast.Call) and src(v.func) == "np.arange" and len(v.args) == 1:
+            return sp.Integer(0), sp.Integer(1)
+        if isinstance(v, ast.BinOp) and isinstance(v.op, ast.Mult):
+            for x, y in ((v.left, v.right), (v.right, v.left)):
+                k = affine_knots(y, n_)
+                if k is not None:
+                    f = n_.ev(x)
+                    return k[0] * f, k[1] * f
+        if isinstance(v, ast.BinOp) and isinstance(v.op, (ast.Add, ast.Sub)):
+            kl = affine_knots(v.left, n_)
+            if kl is not None:
+                o = n_.ev(v.right)
+                return (kl[0] + o, kl[1]) if isinstance(v.op, ast.Add) else (kl[0] - o, kl[1])
+            kr = affine_knots(v.right, n_)
+            if kr is not None and isinstance(v.op, ast.Add):
+                return kr[0] + n_.ev(v.left), kr[1]
+        return None
+
+    if kn and tp:
         n_ = NpSym(env={"xmin": xmin, "dx": dx})
         try:
-            a, b = n_.ev(kn[0].value.args[0]), n_.ev(kn[0].value.args[1])
-            cnt = n_.ev(kn[0].value.args[2])
+            ak = affine_knots(kn[0].value, n_)
+            if ak is None:
+                raise Undecided(f"knot vector `{src(kn[0].value)}` is not a recognised uniform construction")
+            a, step_ = ak
+            b, cnt = a + 11 * step_, sp.Integer(12)
             t = n_.ev(tp[0].value)
-            spacing = alg_equal((b - a) / (cnt - 1), dx)
+            spacing = alg_equal(step_, dx)
             rel = alg_equal(t - a, 4 * dx)
             ok = bool(spacing and rel)
             why = ("the auxiliary uniform knot vector has spacing dx and the evaluation point is 4 cells from ITS first knot: the "
